@@ -110,7 +110,8 @@ def run_inst(spec, run):
         if mu == "q1_wrong_witness":
             wit = {k: (1 - v if k not in leaves else v) for k, v in T.items()}
         r1 = poly.rows(M, wit)
-        run.obligation(ctx, "no-configuration-lost", z3.And(top == 1, z3.Not(z3.And(r1))), conc)
+        # the reference truth values are only ONE candidate completion: a failing witness is a candidate, the replay searches all completions
+        run.obligation(ctx, "no-configuration-lost", z3.And(top == 1, z3.Not(z3.And(r1))), conc, soft=True)
         # Q2: (solver-safe only) the leaf part of every integer point satisfies the model
         if safe or mu == "q2_claim_unsafe":
             col = dict(zx)
